@@ -395,6 +395,11 @@ func (h *Hist) randomEvent() string {
 	hard := int64(o.HardDeleteGracePeriodDuration() / time.Second)
 	cool := o.ScaleUpCoolDownPeriodDuration()
 	ev := r.intn(22)
+	if focus == "up" && slowOK && r.chance(45) {
+		// straight past the cool-down: the next scan may ask the cloud again, on whatever description of the group it holds
+		h.shift(cool + time.Second)
+		return "advance-past-cooldown"
+	}
 	if focus == "up" && r.chance(35) {
 		ev = r.pickI(4, 4, 5, 16, 13) // tainted nodes to reuse, force-tainted nodes to remove first, ties, deliveries
 	}
